@@ -31,7 +31,7 @@ git -C /repo apply $OUT/patch.diff || exit 5
 mkdir -p /verif/seeded/${ID}_$NAME
 RES=""
 for c in $CHECKS; do
-  (cd /verif && timeout 3000 ./check.py $c --tier quick > /tmp/tm_check_$c.txt 2>&1); RC=$?
+  (cd /verif && VERIF_SEEDED_TRIAL=1 timeout 3000 ./check.py $c --tier quick > /tmp/tm_check_$c.txt 2>&1); RC=$?
   echo "check $c quick: exit $RC"; grep -E "signature|VIOLATION" /tmp/tm_check_$c.txt | head -6
   RES="$RES $c:quick:$RC"
 done
